@@ -1028,7 +1028,7 @@ class Enum(Generic, PrimitiveType):
     )
 
   def to_json(self, **kwargs: typing.Any) -> typing.Dict[str, typing.Any]:
-    return self.to_json_dict(
+    json_dict = self.to_json_dict(
         fields=dict(
             default=(self.default, MISSING_VALUE),
             values=(self._values, None),
@@ -1037,6 +1037,10 @@ class Enum(Generic, PrimitiveType):
         exclude_default=True,
         **kwargs,
     )
+    if 'default' not in json_dict:
+      # `default` is a required constructor argument of Enum.
+      json_dict['default'] = utils.to_json(MISSING_VALUE, **kwargs)
+    return json_dict
 
   @classmethod
   def with_type_args(cls, type_args: typing.Tuple[typing.Any, ...]) -> 'Enum':
